@@ -124,7 +124,7 @@ def z_of_result(c, r):
         return IntVal(r)
     if kind == 'bool':
         return BoolVal(bool(r))
-    if kind == 'none':
+    if kind in ('none', 'opaque'):
         return None
     if kind in ('pair', 'triple'):
         return tuple(IntVal(x if x is not None else 0) for x in r)
